@@ -2,6 +2,7 @@
 verification conditions.  One path per run; paths are enumerated by re-execution with a decision
 prefix (no state copying, so Python object identity = heap identity).  See DESIGN 3.1."""
 import ast
+import os
 import z3
 from z3 import And, Or, Not, Implies, If, IntVal, RealVal, BoolVal
 from . import sorts as so
@@ -108,7 +109,9 @@ def ceval(fn, *args):
     except (Unbindable, Unsupported, PathEnd, RaiseEx, ReturnEx):
         raise
     except (AttributeError, TypeError, KeyError, IndexError, ValueError, z3.Z3Exception) as e:
-        raise Unbindable('contract text does not apply to the current code (%s: %s)' % (type(e).__name__, str(e)[:120]))
+        if os.environ.get("VERIF_TRACE"):
+            import traceback; traceback.print_exc()
+        raise Unbindable("contract text does not apply to the current code (%s: %s)" % (type(e).__name__, str(e)[:120]))
 
 
 class LoopIter:
@@ -203,9 +206,30 @@ class Run:
         self.obls.append(ob)
         self._after_oblige(kind, goal)
 
+    def emit_site(self, label, lineno, goal):
+        """a site hook gives one formula (obligation) or a list of steps: ('unfold', (abbrev, args)) unfolds an abbreviation the contract
+        itself introduced (an instance of its defining equation, built here), (name, f) is a lemma: an obligation that is then available"""
+        if isinstance(goal, list):
+            # a proof block: the steps see each other, the rest of the path only sees the conclusions (names starting with 'keep:')
+            mark = len(self.pc)
+            kept = []
+            for name, f in goal:
+                if name == 'unfold':
+                    ab, args = f          # Abbrev instance: only an instance of its own defining equation can be assumed
+                    self.assume(ab.instance(*args))
+                else:
+                    self.oblige('lemma', '%s:%s' % (label, name), lineno, f)
+                    if name.startswith('keep:'):
+                        kept.append(f)
+            del self.pc[mark:]
+            for f in kept:
+                self.pc.append(f)
+        else:
+            self.oblige('site', label, lineno, goal)
+
     def _after_oblige(self, kind, goal):
         # execution continues past a safety check only if it succeeded (otherwise Python raised)
-        if kind == 'safety' and not self.temp_assume and z3.is_expr(goal) and not z3.is_false(z3.simplify(goal)):
+        if kind in ('safety', 'lemma') and not self.temp_assume and z3.is_expr(goal) and not z3.is_false(z3.simplify(goal)):
             self.assume(goal)
 
     def feasible(self, cond):
@@ -565,7 +589,7 @@ class Run:
         return And(*res) if len(res) > 1 else res[0]
 
     def contains(self, cont, item, lineno):
-        if isinstance(cont, SDict):
+        if isinstance(cont, (SDict, SDictOfLists)):
             return cont.dom[coerce(item, cont.ksort)]
         if isinstance(cont, SSet):
             return cont.dom[coerce(item, cont.ksort)]
@@ -871,7 +895,7 @@ class Run:
         if hook is not None:
             # delegation site: what the wrapper hands to the callee is itself specified
             goal = ceval(hook, self.view(self.cur_env), bound)
-            self.oblige('site', 'site:call:%s#%d' % (q, kcall), lineno, goal)
+            self.emit_site('site:call:%s#%d' % (q, kcall), lineno, goal)
         s = View(bound, {'run': self, 'caller_view': True, 'ghost': self.ghost})
         if c.requires is not None:
             pre = ceval(c.requires, s)
@@ -887,6 +911,10 @@ class Run:
         ret = c.make_ret(self, s) if c.make_ret is not None else NONE
         if c.ensures is not None:
             self.assume(ceval(c.ensures, old, s, ret))
+        hook = self.unit.sites.get(('after:' + q, kcall))
+        if hook is not None:
+            # proof steps stated about the state right after the call (asserted, then available to the rest of the path)
+            self.emit_site('site:after:%s#%d' % (q, kcall), lineno, ceval(hook, self.view(self.cur_env), bound))
         if c.may_raise is not None:
             # callee raises EoNError under this condition: the caller's path ends exceptionally
             cond = c.may_raise(old)
@@ -1178,10 +1206,18 @@ class Run:
             if o is not None and hasattr(o, 'havoc') and all(o is not p for p in objs):
                 objs.append(o)
 
+        comp_targets = set()          # comprehension variables are local to the comprehension (Python 3): not assignments of the body
+        for top in body_nodes:
+            for x in ast.walk(top):
+                if isinstance(x, (ast.ListComp, ast.SetComp, ast.DictComp, ast.GeneratorExp)):
+                    for g in x.generators:
+                        for y in ast.walk(g.target):
+                            comp_targets.add(id(y))
         for top in body_nodes:
             for x in ast.walk(top):
                 if isinstance(x, ast.Name) and isinstance(x.ctx, ast.Store):
-                    names.add(x.id)
+                    if id(x) not in comp_targets:
+                        names.add(x.id)
                 elif isinstance(x, (ast.FunctionDef,)):
                     names.add(x.name)
                 elif isinstance(x, (ast.Subscript, ast.Attribute)) and isinstance(x.ctx, (ast.Store, ast.Del)):
